@@ -11,6 +11,10 @@ CHECKS = {
    text="the program space is enumerated by TLC from the matching / signature / hook / notation models; every program is run through the tool and every successfully generated file is judged by the Go toolchain itself: gofmt -l must be silent and go build of the package (ordinary build: setup file excluded by its tag, output included) must report no error; diagnostics are attributed to functions by position and confirmed in isolation",
    note="judge = gofmt and the Go compiler; generic types, cgo and third-party dependencies are outside the alphabet",
    tech="TLC-enumerated program space from the TLA+ models; translation validation of each output by gofmt and go build"),
+ "C02": dict(cat="model_checking", sec="6 C02",
+   text="""spec/GenExec.tla is the abstract machine of an emitted function (alloc, pre hook, statements in any order with every error-capable call possibly failing, post hook, return); TLC checks StopAfterFailure, ErrStable, PreFirst, PostLast, AtMostOnce, Complete and termination on it and prints the programs; the real tool generates them over instrumented user code, a reflection driver executes each function under three value vectors and up to 32 fault subsets, and TLC validates every recorded NDJSON trace against spec/GenExecTrace.tla (high-water-mark postcondition; rejected runs are confirmed alone and removed so the rest is still checked); for C02 the conjuncts values (every assigned leaf equals the value its term denotes on the source snapshot), frame (every other leaf keeps its previous value: zero, the caller's sentinel in arg style, or a by-pointer hook's write), src (source and arguments unmodified) and panic are enabled""",
+   note="values are symbolic strings produced by injectively tagging user functions; copy direction :reverse and paths through nil pointers are not in the fragment alphabet; `bin/check C02 --selftest` corrupts/drops/inserts trace events and shows rejection",
+   tech="TLA+ abstract machine checked by TLC; traces recorded from executing the real generated functions validated by TLC against the trace specification (code->spec trace validation)"),
  "C03": dict(cat="model_checking", sec="6 C03",
    text="""spec/Selection.tla scans the items of a setup file (declarations, interfaces, floating comments, file attributes) and builds the required output item sequence; TLC checks AcceptWellFormed, EveryMethod, OnlySelected, KeepsAllInOrder, DocsKept on the model; the acceptance family varies exactly the layout attributes the implementation's position arithmetic depends on (body shorter than the 21-character placeholder, one-line form, comments at every position, blank lines, adjacent second converter interface): 4608 layouts, each one setup file run through the tool; exit 0 and one function per method required""",
    note="layout attributes are ignored by the ideal specification (that is the property); grouped type declarations are not explored",
@@ -20,8 +24,8 @@ CHECKS = {
    note="trusts TLC, go/types (type tables) and the syntactic projector of generated bodies; choice among ambiguous same-named candidates is not judged (the property is silent)",
    tech="TLA+ ladder model checked by TLC; TLC-enumerated cases replayed through the real tool and compared on projected function bodies (spec->code case replay)"),
  "C16": dict(cat="model_checking", sec="6 C16",
-   text="static side: every slice pair of the alphabet for which MatchField.tla permits a copy (identical, assignable, convertible element types, defined slice types) must be emitted as a permitted fresh-copy shape (SliceNeverAssigned on the model)",
-   note="the run-time side (aliasing, nil stays nil) is decided by trace validation of executed generated functions (GenExec) once registered; until then the shape of the emitted statement is what is judged",
+   text="run-time side by trace validation of executed generated functions (GenExec.tla / GenExecTrace.tla, four slice fragments incl. defined slice types, nil / empty / two-element values); static side: every slice pair of the alphabet for which MatchField.tla permits a copy (identical, assignable, convertible element types, defined slice types) must be emitted as a permitted fresh-copy shape (SliceNeverAssigned on the model)",
+   note="run-time side: executed generated functions; the driver compares slice data pointers, and overwrites every source element before looking at the destination again (GenExecTrace conjunct slices: same elements, fresh storage, nil stays nil / previous value, isolation)",
    tech="TLA+ ladder model checked by TLC; emitted slice statements of TLC-enumerated cases compared with the permitted shapes"),
  "C05": dict(cat="model_checking", sec="6 C05",
    text="spec/Matching.tla walks destination structs of a typed 'note world' (nested, deep, embedded imported, anonymous, imported with unexported members, empty) with every notation set of MCMatching; TLC checks ExactlyOnce, NothingDropped, NeverMentionInaccessible, WarnPerNoMatch on the model and prints, per program, the accessible leaf set (computed from the type table independently of the walk) and the plan; in every generated function each leaf must be covered exactly once by an assign/skip/no-match line on itself or an enclosing struct, no line may address an inaccessible member, and stderr warnings must sit at the method or failing notation for exactly the no-match lines",
@@ -31,6 +35,10 @@ CHECKS = {
    text="spec/Matching.tla encodes the precedence skip > explicit (:conv/:map/:map $n/:literal) > default, source path resolution (fields, getter chains, promoted/embedded members, pointers, $n arguments), argument adaptation of converters and member-wise descent when a notation addresses a nested member; TLC checks SkipWins, ExplicitNeverDefault, ErrNeedsErrResult on the model; for every program with notations the projected outcome of every plan path must be in the permitted set (incl. reject / no match for unresolvable or ill-typed sources)",
    note="one open known finding (explicit whole-struct value over a skipped member); :skip regexps here are the exact / prefix / suffix forms, full RE2 semantics is C19's",
    tech="TLA+ struct-walk model with notations checked by TLC; TLC-enumerated programs replayed through the real tool and compared per destination path"),
+ "C07": dict(cat="model_checking", sec="6 C07",
+   text="""spec/GenExec.tla is the abstract machine of an emitted function (alloc, pre hook, statements in any order with every error-capable call possibly failing, post hook, return); TLC checks StopAfterFailure, ErrStable, PreFirst, PostLast, AtMostOnce, Complete and termination on it and prints the programs; the real tool generates them over instrumented user code, a reflection driver executes each function under three value vectors and up to 32 fault subsets, and TLC validates every recorded NDJSON trace against spec/GenExecTrace.tla (high-water-mark postcondition; rejected runs are confirmed alone and removed so the rest is still checked); for C07 the conjunct errors is enabled: no call event may follow a failed call and the returned error must be the failing site's sentinel (nil if nothing failed); the static side (error-capable callee needs an error result) is ErrNeedsErrResult in Matching.tla / Hooks.tla, judged by C06 / C10 case replay""",
+   note="fault subsets are exhaustive up to 5 error-capable sites (top-level and nested converters, error-returning getter, both hooks)",
+   tech="TLA+ abstract machine with fault choice checked by TLC; fault-injected executions of the real generated functions validated by TLC against the trace specification"),
  "C08": dict(cat="model_checking", sec="6 C08",
    text="spec/Signature.tla computes the header (or reject) for the complete product of style x recv x reverse x pointer-ness x error x 0..3 additional arguments x named/unnamed x imported operands (2048 combinations); TLC checks the documented table as invariants (SrcOrRecvFirst, DstPlace, ArgsInOrder, ErrLast, NamesPreserved, IllegalRejected); every combination is run through the tool and the generated header is compared name by name and type by type",
    note="exhaustive over the stated product in both tiers; type expressions are compared as written in the generated file",
@@ -40,8 +48,8 @@ CHECKS = {
    note="under :match none only style and match are observable (nothing else can matter to the output); quick samples 1 in 9 plus a fixed core, thorough binds all cases",
    tech="TLA+ options-scoping model checked by TLC; TLC-enumerated notation placements replayed through the real tool and read back through a probe struct pair"),
  "C10": dict(cat="model_checking", sec="6 C10",
-   text="static side: spec/Hooks.tla decides fit/reject and the emitted call for method shape x hook shape (5248 combinations incl. arity 0/1, operand mismatch, wrong results, unexported imported hook, missing, extra parameters none/all/fewer/wrong); TLC checks UnfitRejected, AdaptSound, OperandOrder, ErrNeedsErrResult on the model; every case is run through the tool and the call, its error check and its position relative to allocation and assignments are compared",
-   note="the run-time side (exactly once, operands really shared, snapshots at call time) is decided by trace validation of executed generated functions (GenExec) once registered",
+   text="run-time side: spec/GenExec.tla is the abstract machine of an emitted function (alloc, pre hook, statements in any order with every error-capable call possibly failing, post hook, return); TLC checks StopAfterFailure, ErrStable, PreFirst, PostLast, AtMostOnce, Complete and termination on it and prints the programs; the real tool generates them over instrumented user code, a reflection driver executes each function under three value vectors and up to 32 fault subsets, and TLC validates every recorded NDJSON trace against spec/GenExecTrace.tla (high-water-mark postcondition; rejected runs are confirmed alone and removed so the rest is still checked); static side: spec/Hooks.tla decides fit/reject and the emitted call for method shape x hook shape (5248 combinations incl. arity 0/1, operand mismatch, wrong results, unexported imported hook, missing, extra parameters none/all/fewer/wrong); TLC checks UnfitRejected, AdaptSound, OperandOrder, ErrNeedsErrResult on the model; every case is run through the tool and the call, its error check and its position relative to allocation and assignments are compared",
+   note="run-time side: the same generated functions are executed with instrumented hooks that snapshot both operands and then overwrite every scalar destination field; GenExecTrace (conjunct hooks) requires Pre to see the initial destination, Post the fully assigned one, by-pointer writes to survive exactly where nothing is assigned later, arguments forwarded in order",
    tech="TLA+ hook-fit model exhausted by TLC; every case replayed through the real tool and compared on the projected call"),
  "C11": dict(cat="model_checking", sec="6 C11",
    text="""spec/Selection.tla scans the items of a setup file (declarations, interfaces, floating comments, file attributes) and builds the required output item sequence; TLC checks AcceptWellFormed, EveryMethod, OnlySelected, KeepsAllInOrder, DocsKept on the model; the carry-over family crosses declaration forms (var/func/type/const) with doc / trailing / go:generate-in-doc comments before and after a converter interface, floating comments, package doc, three build-constraint spellings and import sets (22464 layouts); the output is parsed and its declaration sequence with attached comments, package doc, forwarded method docs and the absence of directives, notation lines and the interface's doc are compared with the model's output items""",
